@@ -294,6 +294,10 @@ def bi_rectangle_zoned_nested(length_x, length_y, b_min, b_max_x, b_max_y):
 
     n_1_values = list(range(n_min_1, n_max_1 + 1))
     n_2_values = list(range(n_min_2, n_max_2 + 1))
+    if not n_1_values or not n_2_values:
+        raise ValueError(
+            "No whole number of rows fits between the minimum and maximum spacing; widen the spacing range or change the land size."
+        )
 
     j = 0  # pertains to n_1_values
     k = 0  # pertains to n_2_values
